@@ -39,19 +39,20 @@ Proof.
     f_equal. exact (IH k1 Hrest).
 Qed.
 
-Lemma m2d_join rest : forall k0 n o,
+Lemma m2d_join (e : env) rest : forall k0 n o,
   Forall (fun seg => has_char us seg = false) (k0 :: rest) -> (List.length rest <= n)%nat ->
-  m2d n us [(join_with "_" (k0 :: rest), Leaf o)] = [(k0, nest rest (Leaf o))].
+  m2d e n us [(join_with "_" (k0 :: rest), Leaf o)] = [(k0, nest rest (Leaf o))].
 Proof.
   induction rest as [|k1 r IH]; intros k0 n o Hf Hn.
   - pose proof (split_join k0 [] Hf) as S0. cbn [join_with] in S0.
-    assert (E : fold_left (magic_step us) [(k0, Leaf o)] [] = [(k0, Leaf o)]).
-    { cbn [fold_left]. unfold magic_step. cbn [fst snd]. rewrite S0. reflexivity. }
+    assert (E : fold_left (magic_step e us) [(k0, Leaf o)] [] = [(k0, Leaf o)]).
+    { cbn [fold_left]. unfold magic_step. cbn [fst snd]. rewrite S0. destruct (e_mm e); reflexivity. }
     cbn [join_with]. destruct n; cbn [m2d]; rewrite E; reflexivity.
   - inversion Hf as [|x l Hk0 Hrest]; subst.
-    assert (E : fold_left (magic_step us) [(join_with "_" (k0 :: k1 :: r), Leaf o)] []
+    assert (E : fold_left (magic_step e us) [(join_with "_" (k0 :: k1 :: r), Leaf o)] []
                 = [(k0, Node [(join_with "_" (k1 :: r), Leaf o)])]).
-    { cbn [fold_left]. unfold magic_step. cbn [fst snd]. rewrite (split_join k0 (k1 :: r) Hf). reflexivity. }
+    { cbn [fold_left]. unfold magic_step. cbn [fst snd]. rewrite (split_join k0 (k1 :: r) Hf).
+      destruct (e_mm e); reflexivity. }
     destruct n as [|n]; [simpl in Hn; lia|].
     cbn [m2d]. rewrite E. cbn [map fst snd].
     rewrite (IH k1 n o Hrest) by (simpl in Hn; lia). reflexivity.
@@ -68,9 +69,9 @@ Proof.
     rewrite append_length. cbn [String.length List.length]. specialize (IH k1). lia.
 Qed.
 
-Lemma magic_to_dict_join (k0 : string) (rest : path) (o : option val) :
+Lemma magic_to_dict_join (e : env) (k0 : string) (rest : path) (o : option val) :
   Forall (fun seg => has_char us seg = false) (k0 :: rest) ->
-  magic_to_dict [(join_with "_" (k0 :: rest), Leaf o)] = [(k0, nest rest (Leaf o))].
+  magic_to_dict e [(join_with "_" (k0 :: rest), Leaf o)] = [(k0, nest rest (Leaf o))].
 Proof.
   intros Hf. unfold magic_to_dict. apply m2d_join; [exact Hf|].
   change (tfuel (Node [(join_with "_" (k0 :: rest), Leaf o)]))
